@@ -89,3 +89,13 @@ M += [
  ('c16-trunc-scale', 'C16', 'teneva/transformation.py', "            Z[k] *= 2**(p/d)", "            Z[k] *= 2**(p//d)", 'stabilised truncate redistributes the exponent with integer division'),
  ('c16-dot-first', 'C16', 'teneva/act_two.py', "        if use_stab:\n            v, p = teneva.core_stab(v, p)\n\n    v = v.item()", "        if use_stab and (i > 0 or len(Y1) < 50):\n            v, p = teneva.core_stab(v, p)\n\n    v = v.item()", 'first core not rescaled for long trains'),
 ]
+
+M += [
+ ('c09-overwrite-b', 'C09', 'teneva/func.py', "overwrite_a=False, overwrite_b=False,", "overwrite_a=False, overwrite_b=True,", 'defect 8 reintroduced'),
+ ('c09-mul-nocopy', 'C09', 'teneva/act_two.py', "    if teneva._is_num(Y2):\n        Y = teneva.copy(Y1)\n        Y[0] *= Y2\n        return Y", "    if teneva._is_num(Y2):\n        Y = list(Y1)\n        Y[0] = Y[0] * Y2\n        return Y", 'mul(Y, number) shares the other cores'),
+ ('c09-outer-nocopy', 'C09', 'teneva/act_two.py', "    Y = teneva.copy(Y1)\n    Y.extend(teneva.copy(Y2))\n    return Y", "    Y = teneva.copy(Y1)\n    Y.extend(Y2)\n    return Y", 'outer aliases the second factor'),
+ ('c09-get-and-grad', 'C09', 'teneva/act_one.py', "    grad = [np.zeros(G.shape) for G in Y]", "    grad = [np.zeros(G.shape) if G.flags['C_CONTIGUOUS'] else G for G in Y]", 'gradient reuses non-contiguous cores'),
+ ('c09-sort-inplace', 'C09', 'teneva/stat.py', "    x = np.array(x, copy=True)\n    x.sort()", "    x = np.asarray(x)\n    x.sort()", 'cdf_getter sorts its argument'),
+ ('c09-poi-scale', 'C09', 'teneva/grid.py', "        Xsc = (X - a) / (b - a)\n        Xsc[Xsc < 0.] = 0.", "        Xsc = X\n        Xsc -= a\n        Xsc /= (b - a)\n        Xsc[Xsc < 0.] = 0.", 'poi_scale(uni) scales in place'),
+ ('c09-interface-P', 'C09', 'teneva/act_one.py', "        if i is not None:\n            i = i[::-1]", "        if i is not None:\n            i.reverse() if isinstance(i, list) else None\n            i = i if isinstance(i, list) else i[::-1]", 'interface reverses the index list in place under ltr'),
+]
